@@ -203,10 +203,14 @@ def run(chk, facts, tier):
         "reviewed table (each entry with its reason) and no checked_* step disappears; (REGISTRY) the registration list of each extension() is read off by constant propagation "
         "and every registered NAME is implemented by the operation the name denotes (comparison names -> lt/le/gt/ge; camelCase method names -> the snake_case method), with "
         "operands in declaration order and method style; (OPERATOR) `<`/`<=` in binary_relation select closures applying exactly lt/le, and operator overloading is on exactly "
-        "for datetime and duration. Declines accepted string forms, numeric ranges, netmask and calendar arithmetic (value-level).")
-    chk.assumptions = ["the reviewed reasons in tables/arith.json", "PartialOrd on the payload types is the mathematical order of the represented value",
+        "for datetime and duration; (REJECT / FORMS / LIMITS) every place where a constructor rejects its input (error built, with the conditional guards and constants that dominate it), "
+        "every regular expression the constructors compile and every named numeric limit they use equals the reviewed inventory tables/c07_rejections.json in both directions - a vanished, "
+        "weakened or added check, a changed pattern or limit is reported. Declines netmask and calendar arithmetic and that the reviewed forms are the documented ones beyond the recorded reasons (value-level).")
+    chk.assumptions = ["the reviewed reasons in tables/arith.json and tables/c07_rejections.json", "PartialOrd on the payload types is the mathematical order of the represented value",
                        "MIR at mir-opt-level=0 reflects source control flow"]
     arith.check(chk, facts, "C07.ARITH", ["src/extensions/decimal.rs", "src/extensions/datetime.rs", "src/extensions/ipaddr.rs", "src/extensions.rs",
                                           "src/ast/extension.rs", "src/extensions/partial_evaluation.rs"], "extensions")
     registry(chk, facts)
     operator(chk, facts)
+    from rules import c07_reject
+    c07_reject.check(chk, facts)
